@@ -225,10 +225,16 @@ impl<L: Language> NthChild<L> {
     //  only consider named children
     let mut children: Vec<_> = if let Some(rule) = &self.of_rule {
       // if of_rule is present, only consider children that match the rule
+      // every sibling is tested on its own: what one sibling binds must not constrain the next
       parent
         .children()
         .filter(|n| n.is_named())
-        .filter_map(|child| rule.match_node_with_env(child, env))
+        .filter(|child| {
+          let mut scratch = Cow::Borrowed(env.as_ref());
+          rule
+            .match_node_with_env(child.clone(), &mut scratch)
+            .is_some()
+        })
         .collect()
     } else {
       parent.children().filter(|n| n.is_named()).collect()
@@ -269,7 +275,14 @@ impl<L: Language> Matcher<L> for NthChild<L> {
     env: &mut Cow<MetaVarEnv<'tree, D>>,
   ) -> Option<Node<'tree, D>> {
     let index = self.find_index(&node, env)?;
-    self.position.is_matched(index).then_some(node)
+    if !self.position.is_matched(index) {
+      return None;
+    }
+    // the variables of of_rule are bound by the node itself
+    if let Some(rule) = &self.of_rule {
+      rule.match_node_with_env(node.clone(), env)?;
+    }
+    Some(node)
   }
   fn potential_kinds(&self) -> Option<BitSet> {
     let rule = self.of_rule.as_ref()?;
